@@ -11,7 +11,7 @@ pub fn fixtures_dir() -> String {
 // strings
 // ------------------------------------------------------------------------------------------
 pub const BOUNDARY_LENGTHS: &[usize] = &[
-    0, 1, 2, 3, 15, 16, 17, 31, 32, 33, 47, 48, 49, 63, 64, 65, 95, 96, 97, 127, 128, 129, 191, 192, 193, 255, 256, 257, 1023, 1024, 1025, 4095, 4096, 4097,
+    0, 1, 2, 3, 15, 16, 17, 31, 32, 33, 47, 48, 49, 63, 64, 65, 95, 96, 97, 127, 128, 129, 191, 192, 193, 255, 256, 257, 511, 512, 513, 1023, 1024, 1025, 2047, 2048, 2049, 4095, 4096, 4097,
 ];
 pub const BIG_LENGTHS: &[usize] = &[8191, 8192, 8193, 16383, 16384, 16385, 32767, 32768, 32769, 65535, 65536, 65537];
 pub const HUGE_LENGTHS: &[usize] = &[262_144, 1_048_576, 1_048_577];
